@@ -58,3 +58,6 @@ pub fn read_eci(data: &[u8]) -> Result<(usize, u32), crate::data::DataDecodingEr
 pub fn write_eci(c: u32) -> Vec<u8> {
     crate::encodation::verif_write_eci(c)
 }
+
+pub use crate::encodation::planner::verif_planner_stats as planner_stats;
+pub use crate::encodation::planner::VerifPlannerStats as PlannerStats;
